@@ -547,3 +547,41 @@ Proof.
     rewrite G.
     split; [exact Ff|]. split; [exact Fm|]. split; [exact Vf|]. lra.
 Qed.
+
+(** ** Concrete floats: from the bit-level image to the real value. *)
+Lemma B2R_of_SF_finite : forall (x : f64) s m e,
+  B2SF x = SpecFloat.S754_finite s m e -> B2R x = F2R (Float radix2 (cond_Zopp s (Z.pos m)) e).
+Proof. intros x s m e H. rewrite <- SF2R_B2SF, H. reflexivity. Qed.
+
+Lemma B2R_of_SF_zero : forall (x : f64) s, B2SF x = SpecFloat.S754_zero s -> B2R x = 0.
+Proof. intros x s H. rewrite <- SF2R_B2SF, H. reflexivity. Qed.
+
+Lemma sf_eqb_eq : forall a b, sf_eqb a b = true -> a = b.
+Proof.
+  intros [s|s| |s m e] [s'|s'| |s' m' e']; simpl; intros H; try discriminate; try reflexivity.
+  - apply Bool.eqb_prop in H. congruence.
+  - apply Bool.eqb_prop in H. congruence.
+  - apply andb_prop in H. destruct H as [H H3]. apply andb_prop in H. destruct H as [H1 H2].
+    apply Bool.eqb_prop in H1. apply Pos.eqb_eq in H2. apply Z.eqb_eq in H3. congruence.
+Qed.
+
+Lemma feqb_bits_B2R : forall x y : f64, feqb_bits x y = true -> B2R x = B2R y.
+Proof.
+  intros x y H. apply sf_eqb_eq in H. rewrite <- (SF2R_B2SF _ _ x), <- (SF2R_B2SF _ _ y), H. reflexivity.
+Qed.
+
+(** [b2r x]: rewrite [B2R x] for a closed float [x] into an explicit [F2R]. *)
+Ltac b2r x :=
+  let sf := eval vm_compute in (B2SF x) in
+  match sf with
+  | SpecFloat.S754_finite ?s ?m ?e =>
+      rewrite (B2R_of_SF_finite x s m e) by (vm_compute; reflexivity)
+  | SpecFloat.S754_zero ?s => rewrite (B2R_of_SF_zero x s) by (vm_compute; reflexivity)
+  end.
+Ltac b2r_in x H :=
+  let sf := eval vm_compute in (B2SF x) in
+  match sf with
+  | SpecFloat.S754_finite ?s ?m ?e =>
+      rewrite (B2R_of_SF_finite x s m e) in H by (vm_compute; reflexivity)
+  | SpecFloat.S754_zero ?s => rewrite (B2R_of_SF_zero x s) in H by (vm_compute; reflexivity)
+  end.
